@@ -367,4 +367,34 @@ theorem frameLoop_spec (c : Cfg) (B : Bank α) (X : Int → α) (hS : 0 < c.S) :
       rw [hq]
       simp
 
+
+/-! ### any split of the filtered stream into `_fill_y_buf` calls -/
+
+/-- feed the stream `v 0, v 1, …` through `_fill_y_buf` in pieces of the given lengths -/
+def feedAll (S : Nat) (w0 w1 : List α) (v : Int → α) :
+    List Nat → Nat → List (α × α) → List (α × α) × Bool
+  | [], _, acc => (acc, true)
+  | k :: ks, yRem, acc =>
+    let r := fillOne S w0 w1 yRem k (seg v (yRem : Int) k) acc
+    let r' := feedAll S w0 w1 v ks (yRem + k) r.1
+    (r'.1, r.2 && r'.2)
+
+theorem feedAll_spec (S nB : Nat) (hS : 0 < S) (w0 w1 : List α) (hw0 : w0.length = S)
+    (hw1 : w1.length = S) (v : Int → α) :
+    ∀ (ks : List Nat) (yRem : Nat), yRem + ks.sum ≤ nB * S →
+      feedAll S w0 w1 v ks yRem (canonAcc S nB w0 w1 v 0 yRem)
+        = (canonAcc S nB w0 w1 v 0 (yRem + ks.sum), true) := by
+  intro ks
+  induction ks with
+  | nil => intro yRem _; simp [feedAll]
+  | cons k ks ih =>
+    intro yRem h
+    simp only [List.sum_cons] at h
+    unfold feedAll
+    have := fillOne_spec S nB hS w0 w1 hw0 hw1 v 0 yRem k (by omega)
+    rw [Int.zero_add] at this
+    simp only [this]
+    rw [ih (yRem + k) (by omega)]
+    simp [Nat.add_assoc]
+
 end PdsVerif.SiAcc
